@@ -231,7 +231,7 @@ def valgrind_uninit(workdir):
     r = subprocess.run(['g++', '-std=c++17', '-O0', '-g', '-w', 'driver.cpp', '-o', 'driver_vg'], cwd=workdir, capture_output=True, text=True, timeout=300)
     if r.returncode != 0:
         return None, 'compile error'
-    r = subprocess.run(['valgrind', '-q', '--error-exitcode=9', '--track-origins=no', './driver_vg'], cwd=workdir, capture_output=True, text=True, timeout=300)
+    r = subprocess.run(['valgrind', '-q', '--error-exitcode=9', '--track-origins=yes', './driver_vg'], cwd=workdir, capture_output=True, text=True, timeout=300)
     err = r.stderr
     hit = ('uninitialised value' in err) and ('UiSupport::' in err)
     ex = '\n'.join(l for l in err.split('\n') if 'uninitialised' in l or 'UiSupport::' in l)[:600]
